@@ -69,12 +69,25 @@ func (t *topicsState) dump(event *api.StateBroadcastEvent) {
 	})
 }
 
+// stamp returns the timestamp of a local write to topic: the node clock, or, when a peer with
+// a faster clock already wrote the entry this write replaces, just after that entry, so that
+// the local write is the newest everywhere and not only here.
+func (t *topicsState) stamp(topic []byte) int64 {
+	now := clock()
+	if local, err := t.get(topic); err == nil && len(local) == 1 {
+		if last := crdt.GetLastEntryUpdate(local[0]); last >= now {
+			now = last + 1
+		}
+	}
+	return now
+}
+
 func (t *topicsState) Set(message *packet.Publish) error {
 	t.mu.Lock()
 	defer t.mu.Unlock()
 	msg := &api.RetainedMessage{
 		Publish:   message,
-		LastAdded: clock(),
+		LastAdded: t.stamp(message.Topic),
 	}
 	err := t.set(message.Topic, msg)
 	if err != nil {
@@ -112,7 +125,7 @@ func (t *topicsState) Delete(topic []byte) error {
 			Topic:   topic,
 			Payload: nil,
 		},
-		LastDeleted: clock(),
+		LastDeleted: t.stamp(topic),
 	}
 	err := t.set(topic, msg)
 	if err != nil {
